@@ -116,6 +116,9 @@ func Round(x float64, prec int) float64 {
 		// without the negative bit set.
 		return 0
 	}
+	if math.IsInf(x, 0) {
+		return x
+	}
 	// Fast path for positive precision on integers.
 	if prec >= 0 && x == math.Trunc(x) {
 		return x
@@ -146,6 +149,9 @@ func RoundEven(x float64, prec int) float64 {
 		// Make sure zero is returned
 		// without the negative bit set.
 		return 0
+	}
+	if math.IsInf(x, 0) {
+		return x
 	}
 	// Fast path for positive precision on integers.
 	if prec >= 0 && x == math.Trunc(x) {
